@@ -23,6 +23,16 @@ CHECKS = {
         "technique": "Lean 4 proof (sortedness invariant, bisect loop invariant, lookup semantics) + model/code correspondence check",
     },
 }
+CHECKS["C10"] = {
+    "text": "Lean: membership is the existential scan with the set's relation; the constructor keeps a span iff it is not in the set built so far (sublist of the input, pairwise unrelated to earlier kept spans, covering for reflexive relations); A&B, A|B, A-B, A^B contain exactly the spans of A and B satisfying the membership formula, each once, for arbitrary (mixed) relations of the operands; the nine comparisons are exactly the quantified membership statements.",
+    "note": COMMON_NOTE + "Span bounds are numbers embedded in Int (multiples of 1/2 sent as integers, int/float mixed on the Python side).",
+    "technique": "Lean 4 proof (fold invariant of the constructor, membership characterisations) + model/code correspondence check",
+}
+CHECKS["C16"] = {
+    "text": "Lean: construction succeeds iff every interval has start<=end and the intervals are pairwise apart, else KeyError; lookup (the real bisect_left loop over the sorted ends, then the start test) returns the value of the unique containing interval and KeyError when none; `in` agrees; len; iteration is a permutation of the items in strictly ascending order.",
+    "note": COMMON_NOTE + "The disjointness check goes through the SpanSet model of C10 (Overlaps relation) exactly as the code does; sorted() is modelled by List.mergeSort.",
+    "technique": "Lean 4 proof (constructor iff, bisect loop invariant, uniqueness by disjointness) + model/code correspondence check",
+}
 NOT_APPLICABLE = []
 NOTES = ("Checks are added as their models, theorems and correspondence harnesses are completed; properties not yet listed are "
          "work in progress (see DESIGN.md), not 'not applicable'.")
